@@ -295,10 +295,10 @@ def run(rep, program: Program, tier: str) -> None:
     rep.assumptions = ["evaluation counts of user functions that call each other are out of view", "naming convention grad_/jacob_/hess_/mhp_/mtp_/vjp_ + base function links aux names to DIFF_OPS components"]
     se = StateEffects(program)
     rule_r2.seen = set()
-    rule_r1(rep, program, se)
-    rule_r2(rep, program)
-    rule_r3(rep, program)
-    rule_r4(rep, program)
-    rule_r5(rep, program, se)
-    rule_r6(rep, program)
-    rule_r7(rep, program)
+    rep.isolate(rule_r1, rep, program, se)
+    rep.isolate(rule_r2, rep, program)
+    rep.isolate(rule_r3, rep, program)
+    rep.isolate(rule_r4, rep, program)
+    rep.isolate(rule_r5, rep, program, se)
+    rep.isolate(rule_r6, rep, program)
+    rep.isolate(rule_r7, rep, program)
